@@ -378,6 +378,37 @@ Theorem C01_refused_requests_leave_no_trace :
 Proof. exact refused_requests_leave_no_trace. Qed.
 Print Assumptions C01_refused_requests_leave_no_trace.
 
+(* --- round 5 --- *)
+(* whatever endpoint the Alt-Svc rewrite puts into URL.Host, the writers name the same authority,
+   because Client.roundTrip fills Request.Host; left empty, it would follow the route *)
+Theorem C01_authority_route_independent : forall override url_host alt, url_host <> [] ->
+  writer_authority (req_host_field override url_host) alt =
+  writer_authority (req_host_field override url_host) url_host.
+Proof. exact authority_route_independent. Qed.
+Print Assumptions C01_authority_route_independent.
+
+Theorem C01_authority_empty_host_follows_route : forall url_host alt,
+  writer_authority [] alt = alt /\ (alt <> url_host -> writer_authority [] alt <> writer_authority [] url_host).
+Proof. exact authority_empty_host_follows_route. Qed.
+
+(* one Request object, any sequence of body setters and sends, any marshalling function: every
+   send carries the last thing that was set, marshalled as it is at that send *)
+Theorem C01_every_send_carries_the_last_set_body :
+  forall (V : Type) (marshal : V -> bytes) (ops : list body_op) (st : bstate),
+  body_run marshal st ops = described_bodies marshal (st_meaning marshal st) ops.
+Proof. exact @every_send_carries_the_last_set_body. Qed.
+Print Assumptions C01_every_send_carries_the_last_set_body.
+
+Theorem C01_cached_marshalling_sends_stale_body :
+  exists ops : list (body_op (V := bytes)),
+    (let fix run st ops := match ops with
+                           | [] => []
+                           | op :: r => let '(st', out) := body_step_cached (fun v => v) st op in
+                                        match out with Some b => b :: run st' r | None => run st' r end
+                           end in run (mkBs None []) ops)
+    <> described_bodies (fun v => v) [] ops.
+Proof. exact cached_marshalling_sends_stale_body. Qed.
+
 (* non-vacuity: a template with two holes, overlapping client/request keys and hostile values *)
 Example C01_nonvacuous :
   let ts := [TLit (bs "/users/"); THole (bs "id"); TLit (bs "/files/"); THole (bs "name")] in
